@@ -1,6 +1,6 @@
 CONSTANTS
   MaxLen = 4
-  Kinds = {"flip", "toggle", "get"}
+  Kinds = {"flip", "toggle", "get", "total", "mark", "mode", "boom"}
 SPECIFICATION Spec
 INVARIANT Emit
 CHECK_DEADLOCK FALSE
